@@ -105,6 +105,7 @@ struct Stats {
     max_base_distance: u64,
     uuid_types_live: u64,
     acks_blacked_out: u64,
+    acks_while_building: u64,
 }
 
 fn one_history(ctx: &mut Ctx, rng: &mut Rng, ticks: usize) {
@@ -136,8 +137,21 @@ fn one_history(ctx: &mut Ctx, rng: &mut Rng, ticks: usize) {
         tick += rng.range(1, 3) as i32;
         evolve(rng, &mut world, &specs, churn, target);
         // ---- sender, as server/src/main.rs does
+        let early_ack = rng.chance(1, 4) && !to_server.is_empty();
+        let early_ack_value = if early_ack { Some(to_server.remove(0)) } else { None };
+        if early_ack {
+            st.acks_while_building += 1;
+        }
         let r = catch(|| -> Result<(Vec<Msg>, bool), String> {
             let mut builder = sender.new_builder();
+            // An acknowledgement may be processed while the snapshot is being
+            // built (the API does not forbid it); the base tick is read afterwards.
+            if early_ack {
+                if let Some(ack) = early_ack_value {
+                    let mut w = Warnings::new();
+                    let _ = sender.set_delta_tick(&mut w, ack);
+                }
+            }
             let delta_tick = sender.delta_tick().unwrap_or(-1);
             // items in a varying order, as a game world iterates
             let mut keys: Vec<&(TypeId, u16)> = world.keys().collect();
@@ -309,6 +323,7 @@ fn one_history(ctx: &mut Ctx, rng: &mut Rng, ticks: usize) {
     ctx.count("acks_for_unknown_or_dropped_snapshots", st.acks_unknown);
     ctx.count("resyncs_after_unknown_base", st.full_after_unknown);
     ctx.count("acks_lost_in_blackout", st.acks_blacked_out);
+    ctx.count("acks_processed_while_building", st.acks_while_building);
     ctx.max("max_base_tick_distance", st.max_base_distance);
     ctx.max("max_uuid_types_live", st.uuid_types_live);
     for (e, n) in &st.errors {
